@@ -405,6 +405,7 @@ def fresh_name(ctx):
 
 def execute(ctx, cfg, lm, env, strat_factory):
   r = Run(cfg, lm, env)
+  r.lm, r.env = lm, env
   r.gating = 'acts' if hasattr(lm, 'keymap') else 'raw'     # which gates the recorded decisions refer to (needed to replay them)
   return r.go(strat_factory(), fresh_name(ctx))
 
@@ -558,10 +559,36 @@ def describe_case(cfg, sdesc):
               groups=[None if w['gnone'] else w['group'] for w in cfg['workers']], scripts=[' '.join(o[0] + (str(o[1]) if len(o) > 1 else '') for o in w['script']) for w in cfg['workers']],
               strategy=sdesc)
 
+def shrink_schedule(ctx, run, sig, max_runs=16):
+  """Shortest prefix of the recorded decisions after which a NON-PREEMPTIVE continuation (current thread while it can move,
+  else lowest index) still makes the oracle report `sig`.  -> (prefix, replays used).  Falls back to the full list."""
+  core = _pg()[2]
+  dec = list(run.ctl.decisions)
+  used = [0]
+  def fails(prefix):
+    used[0] += 1
+    r = execute(ctx, run.cfg, run.lm, run.env, lambda: core.replay_strategy(prefix, then=core.nonpreemptive))
+    return r.ctl.outcome in ('finished', 'deadlock') and any(s_ == sig for s_, _ in oracle(r))
+  if not fails(dec):
+    return dec, used[0]
+  lo, hi = 0, len(dec)
+  while lo < hi and used[0] < max_runs:
+    mid = (lo + hi) // 2
+    if fails(dec[:mid]):
+      hi = mid
+    else:
+      lo = mid + 1
+  return dec[:hi], used[0]
+
 def record_hits(ctx, run, cfg, sdesc, gating=None):
   hs = oracle(run)
   for sig, what in hs:
-    ctx.hit(sig, what, dict(cfg=cfg, strategy=sdesc, decisions=run.ctl.decisions, outcome=run.ctl.outcome, gating=gating or run.gating))
+    new = not any(h['signature'] == sig for h in ctx.hits) and not any(f['signature'] == sig for f in ctx.open_findings())
+    dec, info = run.ctl.decisions, None
+    if new and len(ctx.hits) < 5:
+      dec, used = shrink_schedule(ctx, run, sig)
+      info = dict(original_decisions=len(run.ctl.decisions), kept=len(dec), replays_used=used, tail='nonpreemptive')
+    ctx.hit(sig, what, dict(cfg=cfg, strategy=sdesc, decisions=dec, outcome=run.ctl.outcome, gating=gating or run.gating, shrunk=info))
   return hs
 
 def run(ctx):
@@ -691,7 +718,7 @@ def replay(ctx, rp):
       print('  (translation broken: %s; replaying with every line as a gate)' % e)
   if lm is None:
     lm = fallback_linemap(env)
-  r = execute(ctx, c['cfg'], lm, env, lambda: core.replay_strategy(c['decisions']))
+  r = execute(ctx, c['cfg'], lm, env, lambda: core.replay_strategy(c['decisions'], then=core.nonpreemptive))
   hs = oracle(r)
   for h in hs:
     print('  still fails:', h)
